@@ -70,7 +70,9 @@ REQUIRED = (["Epoch.year", "Epoch.get_doy", "Angle.__init__", "Angle.to_positive
 
 _FT = json.load(open(os.path.join(K.VERIF, "coq", "proofs", "C13", "finders.json")))
 FINDER_THMS = ["C13_" + k.replace(".", "_") for k in sorted(_FT)]
-THEOREMS = FINDER_THMS + ["C13_order", "C13_spacing", "C13_index", "C13_near", "C13_timing1", "C13_timing2"]
+PERI_THMS = (["C13_%s_perihelion_aphelion" % p for p in ORBITAL] + ["C13_Earth_perihelion_correction", "C13_orbit_alternate",
+             "C13_orbit_spacing", "C13_orbit_near", "C13_orbit_index"])
+THEOREMS = FINDER_THMS + ["C13_order", "C13_spacing", "C13_index", "C13_near", "C13_timing1", "C13_timing2"] + PERI_THMS
 PROOF_TIMEOUT = {"quick": 2000, "thorough": 3000}
 EXHAUSTIVE = False
 MANIFEST = {
@@ -106,7 +108,12 @@ CLAUSES = {
     "Epoch.year non-decreasing in the JDE (so monotone in the query EPOCH)": "unproved (searched): C16's clause; dense scan incl. Julian century leap days",
     "Epoch(x) stores x (JDE -> date -> JDE round trip)": "unproved (searched): C02's clause; correspondence + |result - closed form| in the search",
     "the returned instant IS the event per the library's VSOP87 (longitude difference 0/180, max elongation = reported angle, stationary longitude, extremal radius, zero latitude)": "unproved (searched): two 1000-term series; oracle with the property's tolerances",
-    "perihelion_aphelion / passage_nodes: order, spacing, event": "unproved (searched)",
+    "perihelion_aphelion (7 planets): result = Epoch(minmax of the 3-point interpolation of R at m-h, m, m+h), m = J0 + k(P - k c) [+ Earth's correction sum], k = round(a(y-y0)) (perihelion) / round(a(y-y0)+1/2)-1/2 (aphelion), every constant; TypeError for a non-Epoch scalar":
+        "proved [ideal; Epoch.year, Epoch(x), <Planet>.geometric_heliocentric_position (VSOP87), Interpolation() and minmax() (assumed not to raise) as hypotheses]",
+    "perihelion/aphelion: chosen index within 1/2 of a(y-y0) => result within (P+d)/2 + h of the query's mean instant; successive events P +- (d+2h) apart; perihelia and aphelia alternate (2h + d < P/2 proved per planet)":
+        "proved [spec OrbitFinder + per-planet numbers; hypothesis: the interpolation's extremum lies inside its window (C12's clause)]; on the implementation: searched",
+    "perihelion/aphelion instant is the extremum of the VSOP87 radius vector; known findings (Jupiter/Saturn raise, Uranus 6-8 d off)": "unproved (searched): depends on the VSOP87 values, which the closed form leaves abstract - no known finding became provable as a refutation",
+    "passage_nodes: order, spacing, event": "unproved (searched)",
     "binary64 rounding of the finders": "unproved: bit-exact correspondence model vs implementation on sampled queries",
 }
 
@@ -114,7 +121,9 @@ CLAUSES = {
 def proof_files(tier):
     return (["C13_angle.v", "C13_tac.v", "C13_defs.v"]
             + ["C13_f_%s.v" % k.replace(".", "_") for k in sorted(_FT)]
-            + ["C13_main.v"] + ["C13_s_%s.v" % p for p in PERIODIC] + ["C13.v"])
+            + ["C13_main.v"] + ["C13_s_%s.v" % p for p in PERIODIC]
+            + ["C13_tac2.v", "C13_pdefs.v"] + ["C13_p_%s.v" % p for p in ORBITAL] + ["C13_s_peri.v"]
+            + ["C13.v"])
 
 
 # ---------------------------------------------------------------------------------------------
